@@ -23,6 +23,7 @@ structure ThreadInfo where
   wokenBy : Option Nat := none       -- rid handed over by a cacheable completion
   wokenKind : String := ""
   hitAt : Option Int := none         -- clock when its lookup was answered from cache
+  inHfp : Bool := false              -- its lookup fell into the hit-for-pass period of its entry
 
 structure SchedSt where
   active : Bool := false
@@ -32,6 +33,11 @@ structure SchedSt where
   threads : List (Nat × ThreadInfo) := []
   fetches : List FetchInfo := []
   purged : List Nat := []            -- keys purged (store delete ok or not) and not looked up since
+  /-- (C01) key ↦ entry handed to the last arrival, while nothing removed it (purge, restart) -/
+  liveEntry : List (Nat × Int) := []
+  /-- (C07) entry ↦ last second of its hit-for-pass marker, as set by the completion the harness reported -/
+  hfpUntil : List (Int × Int) := []
+  deleted : List Nat := []           -- keys whose store record a purge deleted and no request has saved since
   maxEidx : Int := -1
   /-- ticks since each thread's lookup (for the D10 classifier) -/
   ticksSinceHit : List (Nat × Nat) := []
@@ -125,8 +131,13 @@ def judgeSched (st0 : SchedSt) (fields : List String) : SchedSt × String :=
               -- monitor (C18): a purged key must get a brand-new entry
               let fresh := eidx > st.maxEidx
               let trip := if st.purged.contains k ∧ !fresh then " TRIP served_from_purged" else ""
+              -- monitor (C01): while a key has an entry that nothing removed, every arrival gets that entry
+              let trip := trip ++ (match st.liveEntry.lookup k with
+                | some e0 => if eidx ≠ e0 then " TRIP second_entry_for_key" else ""
+                | none => "")
               let meidx : Int := match s2.pc ⟨t⟩ with | .looked e => e.n | _ => -1
-              let st' := ({ st with s := s2, purged := st.purged.filter (· ≠ k), maxEidx := max st.maxEidx eidx }).setThread t { key := k, eidx := eidx }
+              let st' := ({ st with s := s2, purged := st.purged.filter (· ≠ k), maxEidx := max st.maxEidx eidx,
+                                    liveEntry := (k, eidx) :: st.liveEntry.filter (·.1 ≠ k) }).setThread t { key := k, eidx := eidx }
               if meidx ≠ eidx then ({ st' with active := false }, s!"DIFF sched arrive entry model={meidx} impl={eidx}{trip}")
               else cmp st' t pos "arrive" trip
         else
@@ -150,6 +161,8 @@ def judgeSched (st0 : SchedSt) (fields : List String) : SchedSt × String :=
             | .passUp => { ti with upStart := some st.line }
             | .hitServe _ _ => { ti with hitAt := some st.s.now }
             | _ => ti
+          let inHfp : Bool := match st.hfpUntil.lookup ti.eidx with | some u => decide (st.s.now ≤ u) | none => false
+          let ti := { ti with inHfp := inHfp }
           let st' := ({ st with s := s1, ticksSinceHit := (t, 0) :: st.ticksSinceHit.filter (·.1 ≠ t) }).setThread t ti
           -- monitor (C04), on the implementation's observations only: a lookup answered from the cache must be
           -- justified by a cacheable fetch for this key still within its lifetime, or by a store record that
@@ -160,6 +173,13 @@ def judgeSched (st0 : SchedSt) (fields : List String) : SchedSt × String :=
               (match f.completedAt with | some c => decide (now ≤ c + f.ttl) | none => false))
             || (match so with | .record r => decide (now ≤ r.expiredAt) | _ => false)
           let trip := if pos = "age.enter" ∧ !justified then " TRIP served_stale" else ""
+          -- monitor (C18): after a purge whose store delete succeeded the store has no record of the key
+          -- until some request saves one
+          let trip := trip ++ (match so with
+            | .record _ => if st.deleted.contains ti.key then " TRIP record_survives" else ""
+            | _ => "")
+          -- monitor (C07): during the hit-for-pass period of its entry a request is neither queued nor served from cache
+          let trip := trip ++ (if inHfp && (pos == "get.registered" || pos == "age.enter") then " TRIP queued_during_hfp" else "")
           if consulted != mconsult then ({ st' with active := false }, s!"DIFF sched get store consulted impl={consulted} model={mconsult}{trip}")
           else cmp st' t pos s!"get-{posOfPc (s1.pc ⟨t⟩)}" trip
       | _, _ => (st, "BADLINE sched get")
@@ -225,6 +245,8 @@ def judgeSched (st0 : SchedSt) (fields : List String) : SchedSt × String :=
                | some _, none, some _ => true
                | _, _, _ => false)
           let trip := if isFetcher ∧ overlaps then " TRIP overlap" else ""
+          -- monitor (C07): a request whose lookup fell into the hit-for-pass period is a pass: it does not complete the entry
+          let trip := trip ++ (if ti.inHfp && decide isFetcher then " TRIP hfp_period_wrong" else "")
           let ti := { ti with upEnd := some st.line, fetcher := isFetcher, lastRid := some rid }
           let st' := ({ st with s := s1, fetches := ⟨rid, ti.key, ttl, kind = "cacheable".toList, none⟩ :: st.fetches }).setThread t ti
           match parseResult pos with
@@ -245,7 +267,11 @@ def judgeSched (st0 : SchedSt) (fields : List String) : SchedSt × String :=
         | some s1 =>
           let ti := st.thread t
           let fetches := st.fetches.map fun f => if some f.rid = ti.lastRid then { f with completedAt := some st.s.now } else f
-          cmp { st with s := s1, fetches := fetches } t pos "complete" ""
+          let cacheable := (ti.lastRid.bind fun r => st.fetches.find? (·.rid = r)).map (·.cacheable) |>.getD false
+          let period : Int := if st.hfp ≤ 0 then 300 else st.hfp
+          let hfpUntil := st.hfpUntil.filter (·.1 ≠ ti.eidx)
+          let hfpUntil := if cacheable then hfpUntil else (ti.eidx, st.s.now + period) :: hfpUntil
+          cmp { st with s := s1, fetches := fetches, hfpUntil := hfpUntil } t pos "complete" ""
       | none => (st, "BADLINE sched complete")
     | ["saved", t, ok, "=>", pos] =>
       match t.toNat? with
@@ -254,6 +280,7 @@ def judgeSched (st0 : SchedSt) (fields : List String) : SchedSt × String :=
         | none => fail "DIFF sched saved not enabled in model"
         | some s1 =>
           let ti := st.thread t
+          let st := if ok = "1" then { st with deleted := st.deleted.filter (· ≠ ti.key) } else st
           let fi := ti.lastRid.bind fun r => st.fetches.find? (·.rid = r)
           match parseResult pos, fi with
           | some (xs, _, body, code), some f =>
@@ -306,12 +333,13 @@ def judgeSched (st0 : SchedSt) (fields : List String) : SchedSt × String :=
       | some k =>
         match stepM st (.purge ⟨k⟩ (d = "1")) with
         | none => fail "DIFF sched purge"
-        | some s1 => ({ st with s := s1, purged := k :: st.purged }, "ok purge 1")
+        | some s1 => ({ st with s := s1, purged := k :: st.purged, deleted := if d = "1" then k :: st.deleted else st.deleted,
+                                liveEntry := st.liveEntry.filter (·.1 ≠ k) }, "ok purge 1")
       | none => (st, "BADLINE sched purge")
     | ["crash"] =>
       match stepM st .crash with
       | none => fail "DIFF sched crash"
-      | some s1 => ({ st with s := s1 }, "ok crash 1")
+      | some s1 => ({ st with s := s1, liveEntry := [], hfpUntil := [] }, "ok crash 1")
     | _ => (st, "BADLINE sched fields")
 
 end Pike.Driver
